@@ -12,14 +12,20 @@
        (C20_extension_gate);
      - registering a well-formed definition keeps the tables well-formed, so C07's invariant
        applies to scripts using it (C20_register_wf).
-   Serialisation re-parsing to the same tree is exercised on the implementation and on the model
-   (correspondence with definitions registered at run time), not proved. *)
+     - serialisation: the round-trip theorem of C04 is stated for any tables satisfying two decidable conditions;
+       registering a definition that satisfies their per-definition parts ([def_ok]: argument names distinct,
+       no slot taking both numbers and strings, the name an identifier; [twf]) keeps them
+       (C20_register_keeps_conditions), hence every printable script of the grammar over the extended tables is
+       printed to a text that is accepted, parses to a tree with the same content and prints to the same text
+       again (C20_registered_roundtrip); example with a command registered on top of the generated tables.
+   The registration path of the implementation (commands.add_commands) is compared with [register] by
+   definitions registered at run time (correspondence). *)
 From Coq Require Import String.
 From Coq Require Import List NArith Bool Arith.
 From SV Require Import Bytes Lexer Tables ArgCheck ArgSpec Machine Printer GenTables.
 Import ListNotations.
 Local Open Scope nat_scope.
-From SV Require Import ArgCheckFacts GateFacts RegisterFacts PositionFacts TotalFacts CompleteFacts.
+From SV Require Import ArgCheckFacts GateFacts RegisterFacts PositionFacts TotalFacts CompleteFacts CompleteTree RenderFacts PrintTree CanonFacts CanonTree RegisterTree.
 
 (* generic in the definition: complete / incomplete / rejected exactly as [legal] says, values under the defined names *)
 Theorem C20_argcheck_generic :
@@ -85,6 +91,54 @@ Theorem C20_register_wf :
   wf_tables T = true -> def_wf d = true -> wf_tables (register key d T) = true.
 Proof. exact RegisterFacts.register_wf. Qed.
 Print Assumptions C20_register_wf.
+
+(* registering a definition that is [def_ok] under its lower-cased name keeps the table conditions of the round-trip theorem *)
+Theorem C20_register_keeps_conditions :
+  forall (T : tables) (key : bytes) (d : cmddef),
+  tbl_ok T = true ->
+  key = lower (d_name d) -> def_ok d = true -> tbl_ok (register key d T) = true.
+Proof. exact RegisterTree.register_tbl_ok. Qed.
+Print Assumptions C20_register_keeps_conditions.
+
+(* scripts using registered commands: printed text accepted, same content, same text again *)
+Theorem C20_registered_roundtrip :
+  forall (T0 : tables) (key : bytes) (d : cmddef) (cs : list gcmd) 
+    (ns : list node) (L' : list bytes) (f : nat),
+  tbl_ok T0 = true ->
+  twf_tables T0 = true ->
+  key = lower (d_name d) ->
+  def_ok d = true ->
+  twf d = true ->
+  wf_cmds (register key d T0) [] None cs ns L' ->
+  Forall cmd_pr cs ->
+  cs <> [] ->
+  fold_right (fun (x : gcmd) (m : nat) => Nat.max (dc x) m) 0 cs <= f ->
+  exists ns' : list node,
+    parse (register key d T0) (tosieve_all f ns) = Accept ns' /\
+    Forall2 nsim ns' ns /\ tosieve_all f ns' = tosieve_all f ns.
+Proof. exact RegisterTree.registered_print_parse. Qed.
+Print Assumptions C20_registered_roundtrip.
+
+(* non-vacuity: a definition with a tag group, a tag with a numeric parameter and a string/list positional meets the conditions *)
+Theorem C20_example_definition :
+  def_ok ex_def = true /\ twf ex_def = true /\ wf_def ex_def = true.
+Proof. exact RegisterTree.ex_def_ok. Qed.
+Print Assumptions C20_example_definition.
+
+(* ... and, evaluated: parsed in mixed case with tags out of order, printed in definition order, re-parsed, printed again *)
+Theorem C20_example_roundtrip :
+  match parse ex_T (bs "MyTag :level 3 :SLOW [""a,b"", ""c\""d""]; mytag ""x"";") with
+  | Accept ns =>
+      tosieve_all 3 ns =
+      bs "mytag :SLOW :level 3 [""a,b"", ""c\""d""];" ++ [10%N] ++ bs "mytag ""x"";" ++ [10%N] /\
+      match parse ex_T (tosieve_all 3 ns) with
+      | Accept ns' => tosieve_all 3 ns' = tosieve_all 3 ns
+      | _ => False
+      end
+  | _ => False
+  end.
+Proof. exact RegisterTree.ex_registered_roundtrip. Qed.
+Print Assumptions C20_example_roundtrip.
 
 (* end to end for a registered action (instantiate T := register key d T0, lookup by C20_no_extension): every use the definition allows is accepted and recorded under the defined names *)
 Theorem C20_registered_action_parsed :
